@@ -21,6 +21,15 @@ sources from scratch, and (a third point for free) the old sources from scratch:
 (ok / Add Error / cannot generate), derived.gen.go removed or the set of generated user functions with their result
 types.
 
+Second family (multi.json): ONE invocation over 2-5 packages — 2-3 packages with derive calls in an import chain, each
+starting from the exported result of the previous one, directly or through a package without derive calls that is not
+named on the command line; names drawn so that the path order often contradicts the import order; every derived.gen.go
+absent. The generation order is the answer of op `genorder` (model G/Order), the packages are run by op `regenall`
+(`Reload.invocation`: a package's first pass sees the other packages' files as loaded at the start, later passes as
+they are on disk). goderive is run twice in a row; both invocations are compared with the model (exit kind, every
+package's functions; an unnamed package gets no file), the second run must leave the bytes of the first, and the result
+of the first must type-check (`go vet ./...`).
+
 Verdicts:
   * the implementation's result with the old file differs from its own from-scratch result and the model does not
     predict exactly these two outcomes (where the driver says `agree=1` the hypotheses of Props/C07 `regen_congr` /
@@ -28,7 +37,10 @@ Verdicts:
                                                  -> VIOLATION of C07 with the scenario as failing input;
   * they differ and the model predicted exactly both outcomes (it can only do so through a stale flowing signature:
     `regen_congr`)                               -> known finding F7 (predicted, not excused);
-  * the implementation does not differ from scratch, but model and implementation disagree on one of the three runs
+  * the implementation does not differ from scratch, but model and implementation disagree on one of the three runs:
+    if it is a successful run from scratch, goderive is run again over its own output and the package is type-checked —
+    a second run that changes the file, or a package that does not type-check, is a VIOLATION of C07 with the
+    sources as failing input (one run suffices, the result type-checks); otherwise
                                                  -> VIOLATION ... no-failing-input-found (correspondence G/Reload.regen).
 """
 import json
@@ -232,6 +244,35 @@ def prepare(sc, binp, root):
     return out
 
 
+def attribute(binp, root, files, first):
+    """A from-scratch run whose result the model does not predict: is the property itself visibly violated?
+    Runs goderive again over its own output (C07: that must change nothing) and type-checks the package (C07: the
+    result of one run type-checks). Returns a description of the violated clause, or None."""
+    kind, data, _, _ = first
+    if data is None:
+        return None
+    d = os.path.join(root, "attr")
+    try:
+        write_pkg(d, files, data)
+        k2, data2, err2, _ = run_real(binp, d)
+        if kind != "ok":
+            # the failed run left a file behind (written by an earlier pass): does the outcome depend on it?
+            if k2 == "ok":
+                return ("the run from scratch fails (%s), the next run over the derived.gen.go that the failed run left behind succeeds: "
+                        "the outcome depends on the old file" % kind)
+            return None
+        if k2 != "ok" or data2 != data:
+            return "a second run over the output of the run from scratch %s: one run did not suffice, the output from scratch is not what regeneration leaves" % (
+                "changes derived.gen.go" if k2 == "ok" else "fails (%s)" % k2)
+        write_pkg(d, files, data)
+        p = common.sh(["go", "vet", "."], cwd=d, timeout=300)
+        if p.returncode != 0:
+            return "the package left by the successful run from scratch does not type-check: %s" % p.stderr.strip().splitlines()[-1][:200]
+        return None
+    finally:
+        shutil.rmtree(d, ignore_errors=True)
+
+
 def closure_keys(calls, old_sigs, table):
     """The (plugin, argument types) that can arise, given the rows known so far; returns (all of them, those without a row)."""
     poss = {}
@@ -255,7 +296,7 @@ def closure_keys(calls, old_sigs, table):
     return used, missing
 
 
-def encode(calls, old_sigs, table, num, names, texts):
+def encode(calls, old_sigs, table, num, names, texts, parts=False):
     """The op arguments `(<call>…) (<row>…) (<old>…)`, and whether a row is unusable (neither ok nor Add Error)."""
     def nm(n):
         return names.setdefault(n, len(names))
@@ -273,6 +314,8 @@ def encode(calls, old_sigs, table, num, names, texts):
         rows.append("(%d (%s) %s)" % (PLUGINS.index(p), " ".join(str(num.ty(t)) for t in ts),
                                       num.ty(row[1]) if row[0] == "ok" else {"reject": "x", "genfail": "g"}[row[0]]))
     old = " ".join("(%d %d)" % (nm(n), num.ty(r)) for n, r in old_sigs)
+    if parts:
+        return "(%s)" % " ".join(cs), "(%s)" % " ".join(rows), "(%s)" % old, odd
     return "(%s) (%s) (%s)" % (" ".join(cs), " ".join(rows), old), odd
 
 
@@ -288,6 +331,198 @@ def impl_outcome(run, universe, names, num):
 
 def cls(o):
     return o if not o.startswith("ok:") else ("removed" if o == "ok:none" else "ok")
+
+
+# ---------------------------------------------------------------- several packages in one invocation
+
+
+def write_module(d, m, derived=None):
+    shutil.rmtree(d, ignore_errors=True)
+    os.makedirs(d)
+    with open(os.path.join(d, "go.mod"), "w") as f:
+        f.write(GOMOD)
+    for p in m["packages"]:
+        os.makedirs(os.path.join(d, p["name"]))
+        for name, src in p["files"].items():
+            with open(os.path.join(d, p["name"], name), "w") as f:
+                f.write(src)
+        if derived and derived.get(p["name"]) is not None:
+            with open(os.path.join(d, p["name"], "derived.gen.go"), "w") as f:
+                f.write(derived[p["name"]])
+
+
+def run_module(binp, d, m):
+    """-> (message kind, {package: derived.gen.go text or None}, stderr tail, crashed)"""
+    rc, err, to = common.run_goderive(binp, d, m["args"], timeout=180, mem_gb=4)
+    files = {}
+    for p in m["packages"]:
+        fp = os.path.join(d, p["name"], "derived.gen.go")
+        files[p["name"]] = open(fp).read() if os.path.exists(fp) else None
+    return message_kind(rc, err), files, err[-400:], to or "panic:" in err or "goroutine " in err
+
+
+def prepare_multi(m, binp, root):
+    """every derived.gen.go absent -> run 1; run 2 over what run 1 left"""
+    d = os.path.join(root, m["id"])
+    write_module(d, m)
+    r1 = run_module(binp, d, m)
+    r2 = run_module(binp, d, m)
+    vet = None
+    if r1[0] == "ok":
+        write_module(d, m, r1[1])
+        p = common.sh(["go", "vet", "./..."], cwd=d, timeout=600)
+        vet = (p.returncode == 0, (p.stderr.strip().splitlines() or [""])[-1][:200])
+    shutil.rmtree(d, ignore_errors=True)
+    return r1, r2, vet
+
+
+def order_line(m):
+    """the op `genorder` of G/Order for the invocation: the named packages under their relative paths, every imported
+    package under its import path (the twin of a named one shares its directory)"""
+    nodes = []
+    imported = set()
+    for p in m["packages"]:
+        imported |= set(p["imports"])
+    for p in m["packages"]:
+        if p["named"]:
+            nodes.append("(./%s /w/%s 1 (%s))" % (p["name"], p["name"], " ".join("rg/" + i for i in p["imports"])))
+    for p in m["packages"]:
+        if p["name"] in imported:
+            nodes.append("(rg/%s /w/%s 0 (%s))" % (p["name"], p["name"], " ".join("rg/" + i for i in p["imports"])))
+    # in listing order of the command line
+    named = {"./" + p["name"]: n for p, n in zip([p for p in m["packages"] if p["named"]], nodes)}
+    listed = [named[a] for a in m["args"]] + nodes[len(named):]
+    return "genorder " + " ".join(listed)
+
+
+def qualified_sigs(pkg, data):
+    return [(pkg + "." + n, r, ps) for n, r, ps in parse_sigs3(data or "")]
+
+
+def run_multi(rep, scs, binp, root, table, num, pool, drvbin, stats):
+    """The multi-package family: order by G/Order (op genorder), every package by G/Reload (op regenall), against two
+    consecutive runs of the real goderive starting with every derived.gen.go absent."""
+    runs = list(pool.map(lambda m: prepare_multi(m, binp, root), scs))
+    # closure of the plugin table over all packages of a scenario, with the files of run 1 as the old files of run 2
+    jobs = []
+    for m, (r1, r2, vet) in zip(scs, runs):
+        calls = [c for p in m["packages"] for c in p["calls"]]
+        olds = [(n, r) for p in m["packages"] for n, r, _ in qualified_sigs(p["name"], r1[1][p["name"]])]
+        jobs.append((calls, olds))
+    for _ in range(12):
+        missing = set()
+        for calls, olds in jobs:
+            missing |= closure_keys(calls, olds, table)[1]
+        if not missing:
+            break
+        table.fill(missing, pool)
+    else:
+        raise common.CheckError("regen tie: the plugin table does not close (multi)")
+    # generation order from the order model
+    olines = ["op %d %s" % (i + 1, order_line(m)) for i, m in enumerate(scs)]
+    drv = common.sh([drvbin], input="\n".join(olines) + "\n", timeout=3600, env=dict(os.environ))
+    oans = drv.stdout.splitlines()
+    if drv.returncode != 0 or len(oans) != len(olines):
+        raise common.CheckError("model driver failed on the genorder ops of the regen tie: %s" % drv.stderr[-500:])
+    lines, meta = [], []
+    for i, (m, (r1, r2, vet), (calls, olds), oa) in enumerate(zip(scs, runs, jobs, oans)):
+        mo = re.match(r"^%d model=(.*)$" % (i + 1), oa)
+        if not mo:
+            raise common.CheckError("model driver rejected genorder op of regen scenario %s: %s" % (m["id"], oa[:200]))
+        order = [x[2:] for x in mo.group(1).split(",") if x]
+        pk = {p["name"]: p for p in m["packages"]}
+        pid = {p["name"]: j for j, p in enumerate(m["packages"])}
+        names, texts = {}, {}
+        for nm in sorted({c["name"] for c in calls} | {a["r"] for c in calls for a in c["args"] if a.get("r")} | {n for n, _ in olds}):
+            names[nm] = len(names)
+        for t in sorted({c["text"] for c in calls}):
+            texts[t] = len(texts)
+        for which, start in (("run1", {}), ("run2", r1[1])):
+            parts, odd = [], []
+            for pn in order:
+                po = [(n, r) for n, r, _ in qualified_sigs(pn, start.get(pn))]
+                calls_part, _, old_part, _ = encode(pk[pn]["calls"], po, table, num, names, texts, parts=True)
+                parts.append("(%d %s %s)" % (pid[pn], calls_part, old_part))
+            _, rows_part, _, odd = encode(calls, olds if which == "run2" else [], table, num, names, texts, parts=True)
+            if odd:
+                stats["skipped_odd_rows"] += 1
+                continue
+            lines.append("op %d regenall (%s) %s" % (len(lines) + 1, " ".join(parts), rows_part))
+            meta.append((i, which, order, names, pid))
+    drv = common.sh([drvbin], input="\n".join(lines) + "\n", timeout=3600, env=dict(os.environ))
+    answers = drv.stdout.splitlines()
+    if drv.returncode != 0 or len(answers) != len(lines):
+        raise common.CheckError("model driver failed on the regenall ops (rc %s, %d answers for %d ops): %s" % (
+            drv.returncode, len(answers), len(lines), drv.stderr[-500:]))
+    ms = stats["multi"] = {"scenarios": len(scs), "invocations_compared": 0, "features": {}, "packages": {}, "outcomes": {},
+                           "order_differs_from_path_order": 0, "second_run_byte_identical": 0, "type_checked": 0}
+    for m in scs:
+        for ft in m["features"]:
+            ms["features"][ft] = ms["features"].get(ft, 0) + 1
+        ms["packages"][str(len(m["packages"]))] = ms["packages"].get(str(len(m["packages"])), 0) + 1
+    flagged = set()
+    for k, ((i, which, order, names, pid), ans) in enumerate(zip(meta, answers), 1):
+        m, (r1, r2, vet) = scs[i], runs[i]
+        mm = re.match(r"^%d model=(.*)$" % k, ans)
+        if not mm:
+            raise common.CheckError("model driver rejected regenall op %d (%s %s): %s" % (k, m["id"], which, ans[:300]))
+        real = r1 if which == "run1" else r2
+        replay = {"scenario": m, "which": which, "op": lines[k - 1], "model": ans, "tie": "regen", "order": order}
+        ms["invocations_compared"] += 1
+        if which == "run1" and order != sorted(order):
+            ms["order_differs_from_path_order"] += 1
+        if real[3]:
+            rep.violation("goderive crashed or hung on regen scenario %s (%s)" % (m["id"], which), replay, True)
+            continue
+        # the model's answer per package, the implementation's state per package
+        model = dict(x.split("=", 1) for x in mm.group(1).split(";") if x)
+        rid = {v: kname for kname, v in pid.items()}
+        mkind = next((o for o in model.values() if o.startswith("error:")), "ok")
+        ms["outcomes"][real[0]] = ms["outcomes"].get(real[0], 0) + 1
+        diffs = []
+        if real[0] != mkind:
+            diffs.append("exit: goderive %s, model %s" % (real[0], mkind))
+        for pn in order:
+            mo = model.get(str(pid[pn]))
+            if mo is None or mo.startswith("error:"):
+                continue     # not reached / failed: what is on disk is not part of the comparison
+            universe = {c["name"] for c in next(p for p in m["packages"] if p["name"] == pn)["calls"]}
+            data = real[1][pn]
+            io = "ok:none" if data is None else "ok:" + ",".join("%d:%s:%d" % f for f in sorted(
+                (names[n], ".".join(str(num.ty(t)) for t in ps), num.ty(r)) for n, r, ps in qualified_sigs(pn, data) if n in universe))
+            if io != mo:
+                diffs.append("package %s: goderive %s, model %s" % (pn, io, mo))
+        for p in m["packages"]:
+            if not p["named"] and real[1][p["name"]] is not None:
+                diffs.append("package %s is not named and got a derived.gen.go" % p["name"])
+        # the property itself: the second run, over the files of the first, changes nothing; the result type-checks
+        why = None
+        if which == "run1" and r1[0] != "ok" and r2[0] == "ok" and mkind == "ok" and i not in flagged:
+            why = ("the first run fails (%s), the second run, over the files the failed run left behind, succeeds: "
+                   "the outcome depends on the old files" % r1[0])
+        if which == "run1" and r1[0] == "ok" and i not in flagged:
+            if r2[0] != "ok" or r2[1] != r1[1]:
+                ch = [pn for pn in r1[1] if r1[1][pn] != r2[1][pn]]
+                why = ("the second run, over the files the first run left, %s: one run did not suffice" % (
+                    "fails (%s)" % r2[0] if r2[0] != "ok" else "changes derived.gen.go of %s" % ", ".join(ch)))
+            elif vet is not None and not vet[0]:
+                why = "the packages left by the successful first run do not type-check: %s" % vet[1]
+            else:
+                ms["second_run_byte_identical"] += 1
+                ms["type_checked"] += 1 if vet else 0
+        if why:
+            flagged.add(i)
+            rep.violation("regen scenario %s (goderive %s, every derived.gen.go absent at the start; generation order by G/Order: %s): %s%s" % (
+                m["id"], " ".join(m["args"]), " ".join(order), why, ("; " + "; ".join(diffs)) if diffs else ""),
+                dict(replay, run1=r1[0], run2=r2[0], stderr=real[2]), True)
+        elif diffs and i not in flagged:
+            flagged.add(i)
+            rep.violation("correspondence G/Order + G/Reload.invocation: scenario %s (%s, goderive %s): %s" % (
+                m["id"], which, " ".join(m["args"]), "; ".join(diffs)), dict(replay, stderr=real[2]), False)
+        if len(rep.violations) > 10:
+            break
+    stats["model_runs_compared"] += ms["invocations_compared"]
+    stats["goderive_runs"] += 2 * len(scs)
 
 
 # ---------------------------------------------------------------- the tie
@@ -350,7 +585,11 @@ def run(rep, n=None):
                 continue
             lines.append("op %d regen %s" % (len(lines) + 1, enc))
             meta.append((i, which, names, {c["name"] for c in calls}))
-        drv = common.sh([common.driver_path()], input="\n".join(lines) + "\n", timeout=3600, env=dict(os.environ))
+        # a private copy of the driver: a concurrent check may rebuild it (lake replaces the binary)
+        drvbin = os.path.join(root, "driver")
+        with common.Lock("lake"):
+            shutil.copy2(common.driver_path(), drvbin)
+        drv = common.sh([drvbin], input="\n".join(lines) + "\n", timeout=3600, env=dict(os.environ))
         answers = drv.stdout.splitlines()
         if drv.returncode != 0 or len(answers) != len(lines):
             raise common.CheckError("model driver failed on the regen ops (rc %s, %d answers for %d ops): %s" % (
@@ -372,8 +611,12 @@ def run(rep, n=None):
                 if r["old_scratch"][3]:
                     rep.violation("goderive crashed or hung on the old sources of regen scenario %s" % sc["id"], replay, True)
                 elif i_scr != m_scr:
-                    rep.violation("correspondence G/Reload.regen: scenario %s, old sources from scratch: goderive %s, model %s" % (
-                        sc["id"], i_scr, m_scr), dict(replay, impl=i_scr, stderr=r["old_scratch"][2]), False)
+                    why = attribute(binp, root, sc["old"]["files"], r["old_scratch"])
+                    rep.violation("%s: scenario %s, old sources from scratch: goderive %s, model %s%s" % (
+                        "regen" if why else "correspondence G/Reload.regen", sc["id"], i_scr, m_scr, "; " + why if why else ""),
+                        dict(replay, impl=i_scr, stderr=r["old_scratch"][2], files=sc["old"]["files"]), bool(why))
+                    if len(rep.violations) > 8:
+                        break
                 continue
             i_old = impl_outcome(r["incr"], universe, names, num)
             i_scr = impl_outcome(r["scratch"], universe, names, num)
@@ -423,11 +666,15 @@ def run(rep, n=None):
                 what = []
                 if i_old != m_old:
                     what.append("with the old file (%s): goderive %s, model %s" % (eff, i_old, m_old))
+                why = None
                 if i_scr != m_scr:
                     what.append("from scratch: goderive %s, model %s" % (i_scr, m_scr))
-                rep.violation("correspondence G/Reload.regen: scenario %s: %s" % (sc["id"], "; ".join(what)),
-                              dict(replay, impl_with_old=i_old, impl_scratch=i_scr, old_file=r["old_file"],
-                                   stderr=r["incr"][2], stderr_scratch=r["scratch"][2]), False)
+                    why = attribute(binp, root, sc["new"]["files"], r["scratch"])
+                    if why:
+                        what.append(why)
+                rep.violation("%s: scenario %s: %s" % ("regen" if why else "correspondence G/Reload.regen", sc["id"], "; ".join(what)),
+                              dict(replay, impl_with_old=i_old, impl_scratch=i_scr, old_file=r["old_file"], files=sc["new"]["files"],
+                                   stderr=r["incr"][2], stderr_scratch=r["scratch"][2]), bool(why))
                 if len(rep.violations) > 8:
                     break
                 continue
@@ -441,6 +688,11 @@ def run(rep, n=None):
                     rep.violation("regen scenario %s: a stale signature of a derive call whose result feeds another derive call: "
                                   "with the old file %s, from scratch %s (as the model predicts)" % (sc["id"], i_old, i_scr),
                                   dict(replay, impl_with_old=i_old, impl_scratch=i_scr, old_file=r["old_file"]), True)
+        multis = json.load(open(os.path.join(root, "multi.json")))
+        if multis:
+            with ThreadPoolExecutor(max_workers=12) as pool:
+                run_multi(rep, multis, binp, root, table, num, pool, drvbin, stats)
+            stats["probe_rows"] = len(table.rows)
         if f7:
             rep.known.append("F7: %d regen scenarios with a stale flowing signature differ from from-scratch exactly as G/Reload.regen predicts, e.g. %s" % (f7, f7_example))
         stats["known_F7_predicted"] = f7
